@@ -18,14 +18,19 @@ R3  move parameters: the record formatted into a motion statement is merged
 R4  shared memory: state and builder remember the same parameters object and
     the same position after a motion command;
 R5  the instruction table agrees with the RS274 oracle and has an entry for
-    every member a command can look up.
+    every member a command can look up;
+R6  rejected calls are part of a history: on every path that ends in an
+    exception the caller can catch, a modal-enum slot or numeric slot differs
+    from its pre-call value only if a delivered statement carries the code /
+    word that accounts for the final value (usually nothing was delivered, so
+    nothing may have changed).
 """
 from __future__ import annotations
 
 from ..commands import CommandRun
 from ..model import AnalysisError
 from ..oracle import ENUM_CODE, quantity_of, STATE_SLOT, MOTION_OR_OFFSET
-from ..traceutil import statements, words, same_value, chain, decisions_text, resolve, norm_code
+from ..traceutil import statements, words, same_value, chain, decisions_text, resolve, norm_code, out_of_scope_exception
 from ..values import *
 
 MUST_EMIT = {"SpinMode", "PowerMode", "CoolantMode", "ToolSwapMode", "DistanceMode", "ExtrusionMode", "FeedMode", "LengthUnits", "Plane"}
@@ -59,7 +64,10 @@ def analyse(W, name, f, ctx, desc, path):
         if path.value.cls == "KeyError" and path.raise_site[0].startswith("GCodeTable"):
             items.append(("viol", "R5", f"{name}:no-table-entry", f"{entry}: the instruction table has no entry for the member looked up "
                           f"(KeyError in {path.raise_site[0]})", [f"via {chain(path.raise_stack)}", f"path decisions: {decisions_text(path)}"]))
-        return items
+            return items
+        if out_of_scope_exception(W.P, path.value.cls):
+            return items
+        return items + rejected(W, name, entry, path)
     st_init = _state(W, W.I.static_heap)
     st_fin = _state(W, path.heap)
     sts = statements(path)
@@ -158,6 +166,63 @@ def analyse(W, name, f, ctx, desc, path):
     return items
 
 
+def _last_words(sts, facts):
+    last_word = {}
+    for s in sts:
+        codes = s.codes()
+        per_q = {}
+        for letter, value, status, how in words(s, facts, letters=("F", "S", "R", "T")):
+            q = quantity_of(codes, letter)
+            if q is None or status != "present":
+                continue
+            per_q.setdefault(q, {})[letter] = value
+        for q, d in per_q.items():
+            last_word[q] = d.get("S", d.get("R", d.get("F", d.get("T"))))
+        if "M5" in codes:
+            last_word["tool-power"] = Const(0)
+    return last_word
+
+
+def rejected(W, name, entry, path):
+    """R6: what a rejected call may leave behind in the mirrored slots."""
+    items = []
+    st_init = _state(W, W.I.static_heap)
+    st_fin = _state(W, path.heap)
+    sts = statements(path)
+    all_codes = [c for s in sts for c in s.codes()]
+    how = f"rejected with {path.value.cls} in {path.raise_site[0]}"
+    detail = [f"delivered before the rejection: {all_codes or 'nothing'}", f"via {chain(path.raise_stack)}", f"path decisions: {decisions_text(path)}"]
+    for E, fields in _enum_slots(W).items():
+        if E not in MUST_EMIT or len(fields) != 1:
+            continue
+        slot = fields[0]
+        fin = resolve(st_fin.fields.get(slot), path.facts)
+        ini = resolve(st_init.fields.get(slot), path.facts)
+        e_codes = {c for (cls, _m), c in ENUM_CODE.items() if cls == E and c is not None}
+        mine = [c for c in all_codes if c in e_codes]
+        if mine:
+            ok = isinstance(fin, Member) and ENUM_CODE.get((E, fin.name)) == mine[-1]
+        else:
+            ok = same_value(fin, ini)
+        if ok:
+            items.append(("ok", "R6", f"{entry} ({how}): state.{slot} follows the delivered codes"))
+        else:
+            items.append(("viol", "R6", f"{name}:{slot}:rejected:{path.value.cls}",
+                          f"{entry} is {how}; the program delivered so far leaves the {E} at "
+                          f"{mine[-1] if mine else 'its previous value'} but state.{slot} reports {fin!r} (before the call: {ini!r})", detail))
+    last_word = _last_words(sts, path.facts)
+    for q, slot in STATE_SLOT.items():
+        fin = resolve(st_fin.fields.get(slot), path.facts)
+        ini = resolve(st_init.fields.get(slot), path.facts)
+        ok = same_value(fin, last_word[q]) if q in last_word else same_value(fin, ini)
+        if ok:
+            items.append(("ok", "R6", f"{entry} ({how}): state.{slot} follows the delivered words"))
+        else:
+            items.append(("viol", "R6", f"{name}:{slot}:rejected:{path.value.cls}",
+                          f"{entry} is {how}; the last delivered {q} word is {last_word.get(q, 'absent')!r} but state.{slot} changed from {ini!r} to {fin!r}", detail))
+    return items
+
+
 def table_agreement(check, W):
     I = W.I
     n = 0
@@ -193,6 +258,7 @@ def run(check, repo, tier):
     check.rule("R3", "the parameter record formatted into a motion statement is merged into the remembered parameters")
     check.rule("R4", "state and builder share the remembered-parameters object and report the same position after motion commands")
     check.rule("R5", "instruction table: RS274 agreement for every entry, totality for every member a command looks up")
+    check.rule("R6", "a rejected call changes a mirrored slot only together with a delivered code / word that accounts for the new value")
     cr = CommandRun(repo, tier=tier, exclude=("write",), cm_body=("pass",), with_invalid=False)
     results = cr.run(analyse)
     check.floor(not (cr.stats["commands"] < 40), f"C07: only {cr.stats['commands']} public commands analysed (floor 40)")
@@ -209,7 +275,7 @@ def run(check, repo, tier):
                 counts[it[1]] = counts.get(it[1], 0) + 1
         if len(check.samples) < 8 and r["items"]:
             check.sample({"command": r["command"], "context": r["ctx"], "abstract_paths": r["paths"], "obligations": len(r["items"])})
-    for rid, floor in (("R1", 40), ("R2", 100), ("R3", 50), ("R4", 100)):
+    for rid, floor in (("R1", 40), ("R2", 100), ("R3", 50), ("R4", 100), ("R6", 500)):
         check.floor(not (counts.get(rid, 0) < floor), f"C07.{rid}: only {counts.get(rid, 0)} obligations decided (floor {floor})")
     n = table_agreement(check, cr.world)
     check.analysed = dict(cr.stats, table_entries=n)
